@@ -203,4 +203,122 @@ def bbbFinal (maskH h2 s1hP s2lP s2hP s3lP s3hP s4lP s4hP : W) (s : W × W × W 
   let t := add_epi64 t (mul_epu32 (and_si256 s.2.2.2 maskH) s4lP)
   add_epi64 t (mul_epu32 (srl_epi64 s.2.2.2 h2) s4hP)
 
+/-! ### loops: 4 prime lanes per `__m256i`, whole kernels -/
+
+/-- a `for j in 0..n { v = load(p + j); store(q + j, f(v)) }` loop over `__m256i` words seen on the flat `u64` array:
+lane `k` of every word is processed with the `k`-th lane of the constant vectors (`f k`); a trailing partial word is not
+touched by the loop (the q120 layouts have none: their length is `4·n`) -/
+def loop4 {α β : Type} (f : Nat → α → β) : List α → List β
+  | a :: b :: c :: d :: rest => f 0 a :: f 1 b :: f 2 c :: f 3 d :: loop4 f rest
+  | _ => []
+
+/-- one prime lane of a whole BBC kernel call (`vec_mat1col_product_bbc_avx2`, and each output word of the `x2` / `2cols`
+variants): `rows` = the `(x, y)` lane pairs of the `ell` rows -/
+def bbcLane (maskH h2 s2l s2h : W) (rows : List (W × W)) : W :=
+  let s := rows.foldl (fun s p => bbcStep s p.1 p.2) (0#64, 0#64)
+  reduceBbc s.1 s.2 maskH h2 s2l s2h
+
+/-- one prime lane of a whole `vec_mat1col_product_bbb_avx2` call -/
+def bbbLane (maskH h2 c1 c2 c3 c4 c5 c6 c7 : W) (rows : List (W × W)) : W :=
+  bbbFinal maskH h2 c1 c2 c3 c4 c5 c6 c7 (rows.foldl (fun s p => bbbStep s p.1 p.2) (0#64, 0#64, 0#64, 0#64))
+
+/-- one level of a table, one prime lane: step metadata, the bookkeeping bit size, the packed twiddles -/
+structure LevelC where
+  m : StepC
+  bs : Nat
+  tw : List W
+
+/-- `ntt_iter[_red]` on one block, positions `i ≥ 1` -/
+def fwdTailBV (r : RedC) (m : StepC) : List W → List W → List W → List W × List W
+  | po :: tw, a :: lo, b :: hi =>
+    let xy := fwdBflyI r m a b po
+    let rest := fwdTailBV r m tw lo hi
+    (xy.1 :: rest.1, xy.2 :: rest.2)
+  | _, _, _ => ([], [])
+
+/-- `ntt_iter[_red]` on the two halves of one block -/
+def fwdBlockBV (r : RedC) (m : StepC) (tw : List W) : List W → List W → List W × List W
+  | a :: lo, b :: hi =>
+    let xy := bfly0 r m a b
+    let rest := fwdTailBV r m tw lo hi
+    (xy.1 :: rest.1, xy.2 :: rest.2)
+  | _, _ => ([], [])
+
+/-- the schedule of the reference (`ntt_ref` as modelled by C07): depth first -/
+def nttLevelsBV (r : RedC) : List LevelC → List W → List W
+  | [], v => v
+  | l :: rest, v =>
+    let h := v.length / 2
+    let lh := fwdBlockBV r l.m l.tw (v.take h) (v.drop h)
+    nttLevelsBV r rest lh.1 ++ nttLevelsBV r rest lh.2
+
+/-- one call `ntt_iter[_red](nn, begin, end, …)`: every block of the range is split in two halves -/
+def fwdLevelBV (r : RedC) (l : LevelC) (blocks : List (List W)) : List (List W) :=
+  blocks.flatMap (fun blk =>
+    let lh := fwdBlockBV r l.m l.tw (blk.take (blk.length / 2)) (blk.drop (blk.length / 2))
+    [lh.1, lh.2])
+
+/-- successive levels over the same range -/
+def fwdLevelwiseBV (r : RedC) : List LevelC → List (List W) → List (List W)
+  | [], bs => bs
+  | l :: ls, bs => fwdLevelwiseBV r ls (fwdLevelBV r l bs)
+
+/-- `ntt_avx2`, one prime lane: level 0 (`ntt_iter_first`), `k` levels over the whole array (`nn > CHANGE_MODE_N`), then the
+remaining levels block by block (`split_nn`-wide blocks, all levels inside a block before the next block) -/
+def nttAvx (r : RedC) (levels : List LevelC) (k : Nat) (v : List W) : List W :=
+  match levels with
+  | [] => v
+  | l0 :: rest =>
+    let v0 := List.zipWith (fun x po => splitPrecompmulSi256 x po l0.m.halfBs l0.m.mask) v l0.tw
+    let bl := fwdLevelwiseBV r (rest.take k) [v0]
+    (bl.map (fun blk => (fwdLevelwiseBV r (rest.drop k) [blk]).flatten)).flatten
+
+/-- `intt_iter[_red]` on one block, positions `i ≥ 1` -/
+def invTailBV (r : RedC) (m : StepC) : List W → List W → List W → List W × List W
+  | po :: tw, a :: lo, b :: hi =>
+    let xy := invBflyI r m a b po
+    let rest := invTailBV r m tw lo hi
+    (xy.1 :: rest.1, xy.2 :: rest.2)
+  | _, _, _ => ([], [])
+
+def invBlockBV (r : RedC) (m : StepC) (tw : List W) : List W → List W → List W × List W
+  | a :: lo, b :: hi =>
+    let xy := bfly0 r m a b
+    let rest := invTailBV r m tw lo hi
+    (xy.1 :: rest.1, xy.2 :: rest.2)
+  | _, _ => ([], [])
+
+/-- the schedule of the reference (`intt_ref` as modelled by C07): levels in block-size-descending order, halves first -/
+def inttLevelsBV (r : RedC) : List LevelC → List W → List W
+  | [], v => v
+  | l :: rest, v =>
+    let h := v.length / 2
+    let lo := inttLevelsBV r rest (v.take h)
+    let hi := inttLevelsBV r rest (v.drop h)
+    let lh := invBlockBV r l.m l.tw lo hi
+    lh.1 ++ lh.2
+
+/-- one call `intt_iter[_red](nn, begin, end, …)`: adjacent finished blocks are merged pairwise -/
+def invLevelBV (r : RedC) (l : LevelC) : List (List W) → List (List W)
+  | a :: b :: rest =>
+    let lh := invBlockBV r l.m l.tw a b
+    (lh.1 ++ lh.2) :: invLevelBV r l rest
+  | _ => []
+
+/-- successive levels (block-size-ascending order) over the same range -/
+def invLevelwiseBV (r : RedC) : List LevelC → List (List W) → List (List W)
+  | [], bs => bs
+  | l :: ls, bs => invLevelwiseBV r ls (invLevelBV r l bs)
+
+/-- `intt_avx2`, one prime lane, on the partition `chunks` of the lane into `split_nn`-wide blocks: the first `j` levels block by
+block, the remaining levels over the whole array, then the last pass (`ntt_iter_first[_red]`) -/
+def inttAvx (r : RedC) (levels : List LevelC) (j : Nat) (chunks : List (List W)) : List W :=
+  match levels.reverse with
+  | [] => chunks.flatten
+  | last :: revL =>
+    let asc := revL.reverse
+    let blocks := chunks.map (fun c => (invLevelwiseBV r (asc.take j) (c.map (fun x => [x]))).flatten)
+    let w := (invLevelwiseBV r (asc.drop j) blocks).flatten
+    List.zipWith (fun x po => iterFirst r last.m x po) w last.tw
+
 end Avx.Ntt
